@@ -23,6 +23,9 @@ type c06Case struct {
 	Binary bool   `json:"binary"`
 	Nested int    `json:"nested,omitempty"` // the rule document is embedded this many block scalars deep (Doc is the whole file)
 	Carets int64  `json:"carets,omitempty"` // seed for the sub-ranges whose rendering is checked
+	// Masked: the document as the YAML decoder sees it when a control comment hides text inside a block scalar (hidden
+	// bytes are spaces); positions are read back from this text, it has the same lines and columns as Doc
+	Masked string `json:"masked,omitempty"`
 }
 
 // c06Embed wraps a rule document into an outer YAML file as a block scalar, depth times (a ConfigMap, a ConfigMap
@@ -283,8 +286,12 @@ func c06Check(c *core.Ctx, cs c06Case, rend *gen.Rendered) c06Outcome {
 	if f.Error.Err != nil {
 		return out
 	}
-	lines := strings.Split(cs.Doc, "\n")
-	if strings.HasSuffix(cs.Doc, "\n") {
+	src := cs.Doc
+	if cs.Masked != "" {
+		src = cs.Masked
+	}
+	lines := strings.Split(src, "\n")
+	if strings.HasSuffix(src, "\n") {
 		lines = lines[:len(lines)-1]
 	}
 	for i := range lines {
@@ -332,7 +339,7 @@ func c06Check(c *core.Ctx, cs c06Case, rend *gen.Rendered) c06Outcome {
 					a, b = 1, len(units)
 				}
 				out.carets++
-				if msg := c06Carets(cs.Doc, lines, fd.pos, a, b); msg != "" {
+				if msg := c06Carets(src, lines, fd.pos, a, b); msg != "" {
 					out.viol = append(out.viol, core.Violation{
 						Sig:   "carets-miss-the-addressed-characters:" + map[bool]string{true: "non-ascii-line", false: "ascii-line"}[strings.ContainsFunc(fd.value, func(r rune) bool { return r > 127 })],
 						What:  fmt.Sprintf("field %s of rule %d, diagnostic columns %d-%d of value %q: %s", fd.path, fd.rule, a, b, core.Trunc(fd.value, 80), msg),
@@ -529,6 +536,52 @@ func runC06(c *core.Ctx) int {
 				rend.Rules[k].Last += dl
 			}
 			run.Count(fmt.Sprintf("nested_depth_%d_documents", nested), 1)
+		}
+		if nested == 0 && !o.CRLF && r.Intn(6) == 0 {
+			// a line hidden by `# pint ignore/line` inside a literal block scalar: the decoder sees spaces there
+			var cand []int
+			for k, fi := range rend.Fields {
+				if fi.Style == gen.Literal && fi.Ext.LastLine > fi.Ext.FirstLine && fi.Ext.FirstLine > fi.Ext.KeyLine {
+					cand = append(cand, k)
+				}
+			}
+			if len(cand) > 0 {
+				k := cand[r.Intn(len(cand))]
+				at := rend.Fields[k].Ext.FirstLine // insert after this 1-based line
+				dl := strings.Split(cs.Doc, "\n")
+				first := dl[at-1]
+				ind := first[:len(first)-len(strings.TrimLeft(first, " "))]
+				payload := []string{"{% if hidden %}", "- alert: Fake", "key: [unclosed", "żółć «x»", "x"}[r.Intn(5)]
+				hidden := ind + payload + " # pint ignore/line"
+				masked := strings.Repeat(" ", len(ind+payload+" ")) + "# pint ignore/line"
+				mk := func(line string) string {
+					out := append(append(append([]string{}, dl[:at]...), line), dl[at:]...)
+					return strings.Join(out, "\n")
+				}
+				cs.Doc, cs.Masked = mk(hidden), mk(masked)
+				for j := range rend.Fields {
+					e := &rend.Fields[j].Ext
+					if e.KeyLine > at {
+						e.KeyLine++
+					}
+					if e.FirstLine > at {
+						e.FirstLine++
+					}
+					if e.LastLine >= at && (j == k || e.LastLine > at) {
+						e.LastLine++
+					}
+				}
+				for j := range rend.Rules {
+					if rend.Rules[j].First > at {
+						rend.Rules[j].First++
+					}
+					if rend.Rules[j].Last >= at {
+						rend.Rules[j].Last++
+					}
+				}
+				cs.Binary = false
+				run.Count("documents_with_text_hidden_inside_a_block_scalar", 1)
+			}
 		}
 		oc := c06Check(c, cs, &rend)
 		run.Eval(1)
